@@ -19,11 +19,11 @@ META = {
             "(C12_detector_tracks) and a never-heard peer gets the bootstrap sample at its first query (C12_never_heard); the running "
             "sum is bounded by bootstrap + time span (C12_no_overflow). The model is tied to the Go code by replaying generated call "
             "scripts on the real accrualFailureDetector and on the model inside Coq, comparing the integer window state exactly after "
-            "every call and every returned float64 level with the exact rational under relative tolerance 1e-9.",
+            "every call and every returned float64 level with the exact rational under relative tolerance 1e-9. C12_threshold_is_the_sources: the threshold of the theorems is the suspicionThreshold of the current source (coq/generated/Constants.v is rewritten at every run from the values the Go compiler computed; a changed constant breaks the theorem and the real-detector histories supply the failing input).",
     "note": "Trusted: Coq kernel+VM, the hand-written model, the Go harness (harness/fd) and the trace translation; float64 rounding is "
             "not modelled (exact rationals + stated tolerance 1e-9; decisions within 2e-9 of the threshold are not compared); int64 "
             "modelled unbounded.",
-    "technique": "Coq proof (invariant of the circular buffer by induction over arbitrary arrival lists, Z/Q arithmetic, no axioms) + "
+    "technique": "Coq proof (invariant of the circular buffer by induction over arbitrary arrival lists, Z/Q arithmetic, no axioms) + translator tie for the suspicion threshold (constants regenerated from the compiled source) + "
                  "model/implementation correspondence by differential replay + independent python monitor recomputing the mean of the "
                  "last min(len,n) intervals from the raw arrival list",
 }
